@@ -120,6 +120,15 @@ def big_items(rng):
     out.append(('big_data', data_bytes(rbytes(rng, 40000), True, True, False, True)))
     out.append(('big_data_nolen', data_bytes(rbytes(rng, 70000), False, True, True, False, None, 2, b'\x00\x00')))
     out.append(('big_data_65535', data_bytes(rbytes(rng, 65535 - 10), True, True, False, False)))
+    # Offset Size near 65535: header + pad exceeds what a 16-bit sum (or the Length field) can hold
+    for osz in (65521, 65526, 65530, 65535):
+        for (L, S) in ((False, False), (False, True), (True, False), (True, True)):
+            pay = rbytes(rng, 12)
+            for ln in ((None, 16, 10 + osz - 65536) if L else (None,)):
+                if ln is not None and ln < 0:
+                    continue
+                out.append(('big_offset_%d' % osz, data_bytes(pay, L, S, True, rng.random() < 0.5, ln, osz, rbytes(rng, osz))))
+        out.append(('big_offset_short_%d' % osz, data_bytes(b'', False, False, True, False, None, osz, rbytes(rng, 300))))
     return out
 
 
